@@ -219,7 +219,13 @@ def generate(tier, rng, shape):
     cases += gen_many_types(tier, rng)
     cases += gen_many_names(tier, rng)
     cases += gen_homogeneous(tier, rng)
-    return cases
+    # a template's (name, type) pair is declared through BOTH template factories, in either order: which of the two makes the first
+    # declaration and which the later ones is drawn anew for every declaration (the other declaration kinds have one factory each)
+    mixed = []
+    for label, ops in cases:
+        ops = [re.sub(r'^decl (primary|secondary) ', lambda m: 'decl %s ' % rng.choice(['primary', 'secondary']), op) for op in ops]
+        mixed.append((label, ops))
+    return mixed
 
 
 def assemble(cases, rng):
